@@ -61,6 +61,8 @@ pub struct ConnS {
     pub parked: bool,
     /// number of live `VConn` values referring to this connection
     pub live: usize,
+    /// real-time bracket around the last hand-back (WhenReady step) of this connection
+    pub back: Option<(std::time::Instant, std::time::Instant)>,
 }
 
 #[derive(Default)]
@@ -493,6 +495,18 @@ impl Sim {
         })
     }
 
+    /// For every connection: [min, max] real age in ms of its last hand-back, seen from a checkout
+    /// bracketed by (t0, t1); [0, 1000000] when it was never handed back (unknown).
+    pub fn ages(&self, t0: std::time::Instant, t1: std::time::Instant) -> Vec<[u64; 2]> {
+        let w = self.world.0.lock().unwrap();
+        (1..=w.dials.len())
+            .map(|c| match w.conns.get(&c).and_then(|cs| cs.back) {
+                Some((b0, b1)) => [t0.saturating_duration_since(b1).as_millis() as u64, t1.saturating_duration_since(b0).as_millis() as u64 + 1],
+                None => [0, 1_000_000],
+            })
+            .collect()
+    }
+
     pub fn issue(&mut self, r: usize, origin: usize, h2: bool) -> Result<(), String> {
         let req = http::Request::builder()
             .uri(format!("{}/", self.uris[origin - 1]))
@@ -654,6 +668,7 @@ impl Sim {
 
     /// Grants the `WhenReady` task of connection `c` one step.
     pub async fn when_ready_step(&mut self, c: usize) -> Result<(), String> {
+        let t_before = std::time::Instant::now();
         {
             let mut w = self.world.0.lock().unwrap();
             let cs = w.conns.get_mut(&c).ok_or("no such conn")?;
@@ -668,6 +683,7 @@ impl Sim {
         settle().await;
         if let Some(cs) = self.world.0.lock().unwrap().conns.get_mut(&c) {
             cs.grant = false;
+            cs.back = Some((t_before, std::time::Instant::now()));
         }
         Ok(())
     }
